@@ -325,7 +325,7 @@ int main(int argc, char **argv) {
     g_parent = getpid();
     std::vector<CfgEntry> cfgs = {
         CFG("mapped<i16,1,0>", 0, int16_t, 1, 0), CFG("mapped<u32,1,1>", 0, uint32_t, 1, 1), CFG("mapped<i64,2,1>", 0, int64_t, 2, 1), CFG("mapped<u64,1,4>", 0, uint64_t, 1, 4), CFG("mapped<u64,2,64>", 0, uint64_t, 2, 64),
-        CFG("mapped<u32,4,4>", 1, uint32_t, 4, 4), CFG("mapped<i64,128,4>", 1, int64_t, 128, 4), CFG("mapped<u64,1,2>", 1, uint64_t, 1, 2), CFG("mapped<i32,3,0>", 1, int32_t, 3, 0),
+        CFG("mapped<ll,1,1>", 0, long long, 1, 1), CFG("mapped<u32,4,4>", 1, uint32_t, 4, 4), CFG("mapped<i64,128,4>", 1, int64_t, 128, 4), CFG("mapped<u64,1,2>", 1, uint64_t, 1, 2), CFG("mapped<i32,3,0>", 1, int32_t, 3, 0),
     };
     if (!opt.replay.empty()) {
         auto m = mc::parse_case(mc::json_field(mc::read_file(opt.replay), "case"));
